@@ -57,15 +57,15 @@ Proof.
   rewrite He in H. cbn in H. now apply action_eqb_eq.
 Qed.
 
-Lemma interact_table_partial : forall it d, d146_region it d = false -> dist_sample it d = spec_sample it d.
-Proof. intros. unfold dist_sample, fixed_D146. now apply (from_grid false d146_region grid_partial). Qed.
+Lemma interact_table : forall it d, dist_sample it d = spec_sample it d.
+Proof. intros. unfold dist_sample, fixed_D146. now apply (from_grid true (fun _ _ => false) grid_fixed). Qed.
 
-Lemma interact_table_when_fixed : forall it d, dist_sample_gen true it d = spec_sample it d.
-Proof. intros. now apply (from_grid true (fun _ _ => false) grid_fixed). Qed.
+(* the code before the fix of D146 (fixed = false): agrees outside the region, differs inside *)
+Lemma interact_table_before_fix : forall it d, d146_region it d = false -> dist_sample_gen false it d = spec_sample it d.
+Proof. intros. now apply (from_grid false d146_region grid_partial). Qed.
 
 Definition tanh_normal_like : dcap :=
   {| is_lkj := false; has_det := false; reg := None; support_real := Some true; c_mode := CNotImpl; c_median := CAttrErr;
      c_mean := CNotImpl; has_rsample := true |}.
-
-Lemma interact_table_refuted : exists it d, dist_sample it d <> spec_sample it d.
+Lemma interact_table_before_fix_refuted : exists it d, dist_sample_gen false it d <> spec_sample it d.
 Proof. exists TMean, tanh_normal_like. vm_compute. discriminate. Qed.
